@@ -46,6 +46,31 @@ def gen(run, g, num, seed, steps, policy=False):
     return res.printed
 
 
+PAIRS_CFG = """SPECIFICATION QSpec
+CONSTANTS
+  Peers <- P3
+  PInfo <- PI_%(g)s
+  Prefixes <- Pfx2
+  LocalAS = 65000
+  Resets = %(resets)s
+INVARIANTS
+  Emit
+CHECK_DEADLOCK FALSE
+"""
+
+
+def gen_pairs(run, g, resets):
+    """every ordered pair of the closed policy family x direction (x reset flavour): exhaustive TLC run of
+    SpeakerPairs.tla, one schedule per pair"""
+    cfg = "SpeakerPairs_%s.cfg" % g
+    v.write_cfg(run.sc, cfg, PAIRS_CFG % {"g": g, "resets": resets})
+    res = v.tlc(run.sc, "SpeakerPairs", cfg, workers=1, deadlock=False, timeout=900, seed=run.seed)
+    v.require_design_ok(res, "SpeakerPairs " + g)
+    if not res.printed:
+        raise v.MachineryError("SpeakerPairs printed no schedule:\n" + res.out[-2000:])
+    return sorted(set(res.printed))
+
+
 MECH_CFG = """SPECIFICATION MSpec
 CONSTANTS
   Peers <- P3
@@ -77,7 +102,7 @@ def design_mech(run, thorough):
         run.design(res, "SpeakerMech %s" % g)
 
 
-def run_speaker(run, invs, kf_invs=None, design=design_mech, policy=False, collide=False):
+def run_speaker(run, invs, kf_invs=None, design=design_mech, policy=False, collide=False, pairs=None):
     thorough = run.tier == "thorough"
     if design:
         design(run, thorough)
@@ -89,7 +114,7 @@ def run_speaker(run, invs, kf_invs=None, design=design_mech, policy=False, colli
         gnum = num * 3 if (policy and g == "addpath") else num     # the per-path policy cases are rarer
         rg = run.replay.get("group") if run.replay else None
         if run.replay:
-            behs = [run.replay["behaviour"]] if rg in (g, g + "-collide") else []
+            behs = [run.replay["behaviour"]] if rg in (g, g + "-collide", g + "-pairs") else []
         else:
             behs = gen(run, g, gnum, run.seed * 100 + i, steps, policy)
         if not behs:
@@ -101,10 +126,15 @@ def run_speaker(run, invs, kf_invs=None, design=design_mech, policy=False, colli
         if kf_invs:
             kcfg = "SpeakerKF_%s_%s.cfg" % (run.prop, g)
             v.write_cfg(run.sc, kcfg, TRACE_CFG % {"g": g, "invs": "\n".join("  " + x for x in kf_invs)})
-        if rg != g + "-collide":
+        if rg in (None, g):
             traces = run.execute("c01", "pkg/server", "^TestVerifC01$", behs, tag="speaker-" + g)
             run.validate("SpeakerTrace", cfg, traces, behs, known_cfg=kcfg, group=g)
-        if collide and rg != g:
+        if pairs and g in pairs and rg in (None, g + "-pairs"):
+            pb = [run.replay["behaviour"]] if run.replay else gen_pairs(run, g, pairs[g])
+            traces = run.execute("c01", "pkg/server", "^TestVerifC01$", pb, tag="speaker-%s-pairs" % g)
+            run.validate("SpeakerTrace", cfg, traces, pb, known_cfg=kcfg, group=g + "-pairs")
+            run.extra["policy_pair_schedules"] = run.extra.get("policy_pair_schedules", 0) + len(pb)
+        if collide and rg in (None, g + "-collide"):
             # the same schedules with every prefix of a table in ONE hash bucket (hook VerifKeyHook of
             # internal/pkg/table): the collision chains are walked by every insert, delete and lookup
             traces = run.execute("c01", "pkg/server", "^TestVerifC01$", behs, tag="speaker-%s-collide" % g,
